@@ -273,7 +273,7 @@ def analyse(ck, fname, target, what):
     P = ck.prog
     f = P.func(M + fname)
     sample, query = f.positional_params[0], f.positional_params[1]
-    ex = Expander(P, f)
+    ex = Expander(P, f, inline_depth=1, inline_filter=lambda g: g.qualname != M + 'ecdf')
     rk = RankEval(ck, f, sample, query)
     ck.clause('D2')
     n_paths = 0
@@ -418,7 +418,7 @@ def rule_order_only(ck):
         sample, query = f.positional_params[0], f.positional_params[1]
         # names carrying sample/query values: the parameters and the sorted copy
         tainted = {sample, query}
-        ex = Expander(P, f)
+        ex = Expander(P, f, inline_depth=1, inline_filter=lambda g: g.qualname != M + 'ecdf')
         for n in all_nodes(f):
             if isinstance(n, ast.Assign):
                 for t in n.targets:
@@ -454,6 +454,18 @@ def _order_context(P, f, n, par):
         c = callee(P, f, p)
         if c in ORDER_OK_CALLS and (cur in p.args or any(k.value is cur for k in p.keywords)):
             return True, 'argument of %s' % c
+        if c in P.funcs and c.startswith(M) and c != f.qualname:
+            # a helper of the same module: the value must be used order-only inside it as well
+            g = P.funcs[c]
+            m, okb = bind_args(g, p)
+            pnames = [k for k, v in m.items() if v is cur]
+            if okb and pnames:
+                for x in all_nodes(g):
+                    if isinstance(x, ast.Name) and x.id in pnames and isinstance(x.ctx, ast.Load):
+                        ok2, why2 = _order_context(P, g, x, getattr(x, '_parent', None))
+                        if not ok2:
+                            return False, 'helper %s: %s' % (g.short, why2)
+                return True, 'order-only inside helper %s' % g.short
         return False, 'call %s' % (c or u(p.func))
     if isinstance(p, ast.keyword):
         return _order_context(P, f, p, getattr(p, '_parent', None)) if False else (True, 'keyword')
